@@ -237,7 +237,40 @@ def check_depth(inp):
     return fails          # (nothing answered 130 frames below the limit: an implementation with deep call chains; nothing to judge)
 
 
-CHECKS = {"canonical": check_canonical, "order": check_order, "pair": check_pair, "triple": check_triple,
+WARMS = ("hash", "eq", "clean", "rh", "json", "scores", "set")
+
+
+def check_carried(inp):
+    """an object that was built, used and pickled in another process (another string-hash salt) and a fresh object of the same
+    string: they define the same metric values, so they are equal, hash alike, and give the same outputs; likewise against b"""
+    ver, s, b = inp["ver"], inp["s"], inp.get("b", inp["s"])
+    C = obs.classes()[ver]
+    got = obs.carried([(ver, s, list(inp["warm"]))], inp["hashseed"])[0]
+    if got is None:
+        return []                                   # cannot be pickled: nothing arrives, nothing to judge
+    fresh, ob = C(s), C(b)
+    want = ref.model_key(ver, *ref.parse(ver, s)) == ref.model_key(ver, *ref.parse(ver, b))
+    fails = []
+    for u in got:
+        try:
+            eq = [(u == fresh), (fresh == u), (u != fresh)]
+            if eq != [True, True, False]:
+                fails.append(failure([True, True, False], eq, note="object carried over from another process vs a fresh object of the same string (==, ==, !=)"))
+                continue
+            if hash(u) != hash(fresh):
+                fails.append(failure("equal objects have equal hashes", [hash(u), hash(fresh)], note="object pickled in a process with PYTHONHASHSEED=%s after %s" % (inp["hashseed"], inp["warm"])))
+            if (u in {fresh}) is not True or (fresh in {u}) is not True:
+                fails.append(failure(True, [(u in {fresh}), (fresh in {u})], note="set membership of the carried object"))
+            if (u == ob) is not want or (want and hash(u) != hash(ob)):
+                fails.append(failure(want, [(u == ob), hash(u) == hash(ob)], note="carried object compared with b"))
+            if obs.observables(ver, u, with_hash=False) != obs.observables(ver, fresh, with_hash=False):
+                fails.append(failure(obs.observables(ver, fresh, with_hash=False), obs.observables(ver, u, with_hash=False), note="outputs of the carried object"))
+        except BaseException as e:  # noqa
+            fails.append(failure("no exception", "%s: %s" % (type(e).__name__, e), note="using an object carried over from another process"))
+    return fails
+
+
+CHECKS = {"carried": check_carried, "canonical": check_canonical, "order": check_order, "pair": check_pair, "triple": check_triple,
           "foreign": check_foreign, "depth": check_depth}
 
 
@@ -255,6 +288,25 @@ def depth_part(shard, n, seed):
         inp = {"ver_a": ver, "a": a, "ver_b": ver, "b": b}
         part.count(inp, nontrivial=True, classes=("depth-sweep",))
         part.check("depth", check_depth, inp)
+    return part
+
+
+def carried_part(shard, n, seed):
+    import random
+    part = runner.Part(PID)
+    rng = random.Random(runner.mix(seed, 78, shard))
+    for i in range(n):
+        ver = spec.VKEYS[(i + shard) % 3]
+        a = gen.rng_vector(rng, ver, p_opt=0.5)
+        prefix, m = ref.parse(ver, a)
+        ks = list(m)
+        rng.shuffle(ks)
+        b = ref.build(prefix, m, ks) if i % 2 else gen.rng_vector(rng, ver)
+        warm = [w for w in WARMS if rng.random() < 0.4]
+        rng.shuffle(warm)
+        inp = {"ver": ver, "s": a, "b": b, "warm": warm, "hashseed": rng.choice((1, 2, 3, 12345, "random"))}
+        part.count(inp, nontrivial=bool(warm), classes=("carried", "carried:hash-first" if "hash" in warm or "set" in warm else "carried:other"))
+        part.check("carried", check_carried, inp)
     return part
 
 
@@ -341,10 +393,12 @@ def run(tier, t0):
     part = runner.hyp_shards("vf.props.c07", "hyp_part", 6000 if tier == "quick" else 240000)
     for p in runner.parallel("vf.props.c07", "depth_part", [(sh, 3 if tier == "quick" else 40, runner.SEED) for sh in range(runner.NPROC)]):
         part.merge(p)
+    for p in runner.parallel("vf.props.c07", "carried_part", [(sh, 6 if tier == "quick" else 120, runner.SEED) for sh in range(runner.NPROC)]):
+        part.merge(p)
     rule = ("single accepted vectors and pairs built as: other spelling of the same assignment, one metric changed, "
             "several changed, 3.0/3.1 twin, vector of another version, independent vector; triples (a, b, clean(a)); "
-            "non-CVSS values (own clean string, None, tuple, bytes, ...). non-trivial = pair whose members differ as "
+            "non-CVSS values (own clean string, None, tuple, bytes, ...); objects built, used and pickled in a child process with another hash seed. non-trivial = pair whose members differ as "
             "strings; distinct by 64-bit hash")
     return runner.finish(part, tier, t0, rule,
                          ["'one fixed order' is read as a consistent relative order of any two metrics across all outputs of the run (the official order is C08's business)"],
-                         required=["pair:" + k for k in ("respell", "one-metric", "several", "minor-twin", "other-version", "independent")] + ["foreign", "v2", "v3", "v4", "depth-sweep"])
+                         required=["pair:" + k for k in ("respell", "one-metric", "several", "minor-twin", "other-version", "independent")] + ["foreign", "v2", "v3", "v4", "depth-sweep", "carried", "carried:hash-first"])
